@@ -55,6 +55,7 @@ FULL = [
     ('keywords-then-parameterised-rule', "@@keyword :: if then\n@@nameguard :: True\n\nstart[Start] = /\\w+/ $ ;", ['ab', 'if', 'a b']),
     ('pattern-blanks', "@@whitespace :: None\nstart = / +/ 'a' /b /  $ ;", [' ab ', 'ab ', '  ab ', ' ab']),
     ('constant-newline', "start = k:`'a\\nb'` 'x' ;", ['x', 'y']),
+    ('float-overflow-constant', "start = a:`1e999` n:`-1e999` 'x' $ ;", ['x', 'y']),
     ('style-like-tokens', "start = '\\\\e[1m' 'f{x}' `f{{y}}` '{0:>4}' $ ;", ['\\e[1m f{x} {0:>4}', 'f{x}']),
 ]
 
